@@ -55,6 +55,13 @@ def bracket(c):
     r = RDPAccountant()
     r.history = [tuple(h) for h in c['hist']]
     out = {'lo': float(lo), 'est': float(est), 'up': float(up), 'reported': float(rep), 'rdp': float(r.get_epsilon(delta=c['delta']))}
+    if len(c['hist']) >= 2:
+        # the history without its last entry: a composition with MORE steps has a larger epsilon, so the upper bound reported for the
+        # whole history may not fall below the LOWER bound of the prefix
+        b = PRVAccountant()
+        b.history = [tuple(h) for h in c['hist'][:-1]]
+        plo, _, _ = b._get_dprv(eps_error=c['eps_error'], delta_error=de).compute_epsilon(c['delta'], de, c['eps_error'])
+        out['prefix_lo'] = float(plo)
     if all(h[1] == 1.0 for h in c['hist']) and len({h[0] for h in c['hist']}) == 1:
         out['true'] = true_eps_q1(c['hist'][0][0], sum(h[2] for h in c['hist']), c['delta'])
     return out
